@@ -41,8 +41,10 @@ Chain2(s) ==
   CASE s \in {"cargo", "generic"} -> SemverChain2
     [] s \in {"npm", "nuget"} -> [i \in 1..17 |-> IF i \in {2, 3, 8, 11} THEN "v" \o SemverChain2[i] ELSE SemverChain2[i]]
     [] s = "golang" -> [i \in 1..17 |-> IF i % 2 = 0 THEN SemverChain[i] ELSE "v" \o SemverChain[i] \o (IF i \in {5, 10, 13} THEN "+incompatible" ELSE "")]
-    [] s = "pypi"   -> <<"0.1", "1.0a1", "1.0rc1", "1.0", "1.0.post1", "1.1", "2.0.dev2", "2.0", "2.0.post1", "2.1", "3.0a1", "3.0",
-                         "3.0.1", "10.0", "10.1", "11.0", "1!0.1">>
+    \* local labels spelled with the letters of pre-release markers (ubuntu, deb, src, .a.) are not pre-releases;
+    \* "c" is PEP 440's alternative spelling of "rc"
+    [] s = "pypi"   -> <<"0.1", "1.0+ubuntu1", "1.1a1", "1.1b2", "1.1c1", "1.1+src.1", "2.0.dev2", "2.0rc1", "2.0+deb.1", "2.0.post1+1.a.1",
+                         "3.0c1", "3.0", "3.0.1", "10.0", "10.1", "11.0", "1!0.1">>
     [] s = "deb"    -> <<"0:0.9", "1.0~rc1", "0:1.0", "1.0-1", "1.0-1+b1", "1.0.1", "0:1.1", "1.10", "2.0~beta1", "2.0", "0:2.0-1",
                          "2.0+dfsg-1", "2.1", "3.0", "10.0", "1:0.1", "01:1.0">>
     [] s = "rpm"    -> <<"0:0.9", "1.0~rc1", "0:1.0", "1.0-1.el8", "1.0-2.el8", "1.0.1", "0:1.1", "1.10", "2.0~beta1", "2.0",
@@ -54,7 +56,7 @@ Chain2(s) ==
     [] s = "alpine" -> <<"0.9", "1.0_alpha1", "1.0_rc1", "1.0", "1.0-r1", "1.0_p1", "1.1", "1.10", "2.0_beta1", "2.0",
                          "2.0-r1", "2.1", "3.0", "3.0.1", "10.0", "10.1", "11.0">>
 \* chain positions (0-based) holding a pypi pre-/dev-release in the second family
-PypiPrePos2 == {1, 2, 6, 10}
+PypiPrePos2 == {2, 3, 4, 6, 7, 10}
 TheChain(s) == IF ChainNo = 1 THEN Chain(s) ELSE Chain2(s)
 AllSchemes == {"alpine", "cargo", "deb", "gem", "generic", "golang", "maven", "npm", "nuget", "pypi", "rpm"}
 
